@@ -2,7 +2,7 @@
 # seedrun.sh <seed-dir-name> <CHECK...> : apply seeded/<name>/patch.diff to /repo, run the quick checks, undo.
 S=/verif/seeded/$1; shift
 cd /repo && git diff --quiet || { echo "/repo not clean"; exit 9; }
-git -C /repo apply $S/patch.diff || { echo "patch does not apply (repo has moved on?)"; exit 8; }
+git -C /repo apply $S/patch.diff 2>/dev/null || (cd /repo && patch -p1 -F3 --no-backup-if-mismatch -s < $S/patch.diff) || { git -C /repo checkout -- .; echo "patch does not apply (repo has moved on?)"; exit 8; }
 trap 'git -C /repo checkout -- .' EXIT
 cd /verif
 for C in "$@"; do
